@@ -9,7 +9,28 @@ Streams
            `CCfg.step`), the schedule-independent results must equal the model's, and the independent oracle scans the
            log for overlapping scatters on vertex-adjacent cells, overlapping combines, and compares the results with
            the serial sums.
+           The combine lock is observed by the instrumented job's try_lock PROBE inside combine() (event kind 14: the
+           assembler's `_thread_mutex` must really be held while the body runs); there is no hook around the lock.
+  featjobs : real FEAT matrix / vector / integral jobs vs exact rational values.
+  boundary-sizes (boundary-dist / boundary-trace): sizes at and around the C++ size boundaries, see BOUNDARY NOTES.
   tsan   : (thorough) the same runs under ThreadSanitizer; oracle only.
+
+BOUNDARY NOTES (size-dependent code found in the anchored sources; the Lean model uses unbounded Nat everywhere)
+  domain_assembler.hpp:1584/1618/1645  std::vector<int> elem_mask, value int(layers.size())   -> number of layers and
+                                        components 127..129, 255..257, 1000/1001 (thorough: 32767.., 65535..65537)
+  domain_assembler.hpp:967             std::vector<char> _element_mask (0/1 flags)             -> cell indices >= 127/255
+  domain_assembler.hpp:1547            idx[int(j)], j < vertices per cell                       -> none (<= 8)
+  domain_assembler.hpp:743-764         ~Index(0) sentinels for elem_fence_open/wait            -> none reachable
+  domain_assembler.hpp:1244,1507-1511  one std::thread / ThreadFence / ThreadStats per worker   -> actual worker counts
+                                        2..64, 255, 256, 257 (> hardware_concurrency), requested 0,1,2,..,65536
+  domain_assembler.hpp:1718,1828       num_workers = min(requested, layers/3 | max colour size) -> clamped to >= 2 but
+                                        < requested (the regime of the seeded requested-vs-actual change)
+  graph.hpp:455/559/684/826            std::vector<char> idx_mask (0/1 duplicate mask of the render kernels used by
+                                        _build_graphs)                                         -> duplicates among cells with
+                                        indices >= 127, 255, 1000 (quad strips: neighbours share two vertices)
+  coloring.cpp:84-96                   col_aux/col_num std::vector<Index>(degree+1), colours as Index -> >= 128 / 256
+                                        colours and degrees (1D star = clique)
+  thread.hpp                           nothing size dependent
 """
 import json
 import os
@@ -183,6 +204,93 @@ def gen_session_cases(rng, count):
         out.append("session %s %d %d %s" % (fmt_input(s, w, nvt, cells, sel), rng.randrange(1, 1 << 30), len(jobs),
                                             " ".join("%d %d %d %d" % j for j in jobs)))
     return out
+
+
+def strip_input(s, w, n, kind, sel=None, reverse=False):
+    """1D path / quad strip / star / isolated cells with n cells; reverse: the geometric start gets the HIGHEST index"""
+    if kind == "path":
+        nvt, cells = n + 1, [[i, i + 1] for i in range(n)]
+    elif kind == "quad":
+        nvt, cells = 2 * (n + 1), [[i, i + 1, n + 1 + i, n + 2 + i] for i in range(n)]
+    elif kind == "star":
+        nvt, cells = n + 1, [[0, i + 1] for i in range(n)]
+    else:  # isolated cells: n components
+        nvt, cells = 2 * n, [[2 * i, 2 * i + 1] for i in range(n)]
+    if reverse:
+        cells = cells[::-1]
+    return fmt_input(s, w, nvt, cells, list(range(n)) if sel is None else sel)
+
+
+BOUNDARY_N = [127, 128, 129, 255, 256, 257, 1000, 1001]
+BOUNDARY_N_BIG = [32767, 32768, 65535, 65536, 65537]
+
+
+def gen_boundary_cases(rng, thorough):
+    """-> (dist cases, run cases).  Sizes / counts at and around the C++ boundaries (see BOUNDARY NOTES); the
+    'interesting' content sits at the high end: duplicates between the highest-numbered quads, the root / the small
+    layers at the highest cell indices (reverse numbering), selected cells only among the highest indices."""
+    dist, runs = [], []
+    ws = [0, 1, 2, 3, 5, 8, 16, 17, 32, 63, 64, 65, 127, 128, 255, 256, 257, 1000, 65536]
+    for n in BOUNDARY_N:
+        # layers / components / cell indices around the boundary
+        dist.append("dist " + strip_input(2, rng.choice([2, 64, 255, 256, 257]), n, "path"))
+        dist.append("dist " + strip_input(3, rng.choice(ws), n, "path", reverse=True))
+        dist.append("dist " + strip_input(4, rng.choice([2, 64, 255, 256, 257]), n, "path", reverse=rng.random() < 0.5))
+        dist.append("dist " + strip_input(rng.choice([2, 3]), rng.choice(ws), n, "iso"))            # n components
+        dist.append("dist " + strip_input(rng.choice([2, 4]), rng.choice(ws), n, "quad", reverse=rng.random() < 0.5))
+        if n <= 257:
+            dist.append("dist " + strip_input(4, rng.choice([2, 3, 64, n]), n, "star"))               # n colours, degree n
+            dist.append("dist " + strip_input(2, rng.choice([2, 3, 64, n]), n, "star"))
+        # only the highest cells selected (element mask / local numbering at the high end)
+        hi = list(range(n - rng.choice([5, 9, 17]), n))
+        dist.append("dist " + strip_input(rng.choice([2, 3, 4]), rng.choice([2, 3, 4, 64]), n, "quad", sel=hi))
+    # requested worker counts 0,1,2,...,64,255,256,...: clamped (>= 2 but < requested) and not clamped
+    for w in ws:
+        dist.append("dist " + strip_input(rng.choice([2, 3]), w, 800, "path"))
+        dist.append("dist " + strip_input(4, w, 600, "path"))
+    # real runs with many threads (more than hardware_concurrency), actual = 255 / 256 / 257 and clamped counts
+    for (s, w, n) in [(2, 255, 770), (2, 256, 770), (3, 300, 770), (2, 257, 800), (4, 255, 520), (4, 256, 520),
+                      (4, 257, 520), (2, 64, 200), (4, 64, 130), (2, 1000, 400), (4, 65536, 129), (0, 256, 770)]:
+        runs.append("run %s %d %d %d %d" % (strip_input(s, w, n, "path"), rng.choice([0, 1, 1]), rng.randrange(2), 2,
+                                            rng.randrange(1, 1 << 30)))
+    runs.append("run %s 1 1 2 %d 2 %d" % (strip_input(2, 256, 770, "path"), rng.randrange(1, 1 << 30), 769))   # throw at the last cell
+    runs.append("run %s 1 1 2 %d 1 %d" % (strip_input(4, 256, 520, "path"), rng.randrange(1, 1 << 30), 519))
+    runs.append("run %s 1 1 1 %d" % (strip_input(4, 3, 257, "star"), rng.randrange(1, 1 << 30)))                # 257 colours
+    runs.append("run %s 1 1 1 %d" % (strip_input(2, 200, 257, "iso"), rng.randrange(1, 1 << 30)))               # 257 layers
+    if thorough:
+        for n in BOUNDARY_N:
+            for k in ("path", "quad", "iso"):
+                dist.append("dist " + strip_input(rng.choice([2, 3, 4]), rng.choice(ws), n, k, reverse=rng.random() < 0.5))
+    return dist, runs
+
+
+def gen_boundary_big(rng):
+    """thorough: 32767 .. 65537 cells (each case < 1 s in the harness); judged by the oracle only - the Lean model's
+    list code is quadratic and is not run at these sizes"""
+    out = []
+    for n in BOUNDARY_N_BIG:
+        out.append("dist " + strip_input(2, rng.choice([4, 256]), n, "path"))
+        out.append("dist " + strip_input(3, 4, n, "path", reverse=True))
+        out.append("dist " + strip_input(4, rng.choice([4, 256]), n, "path", reverse=True))
+        out.append("dist " + strip_input(rng.choice([2, 4]), 4, n, "quad"))
+        if n <= 32768:
+            out.append("dist " + strip_input(3, 256, n, "iso"))       # n components / layers
+        out.append("dist " + strip_input(2, 3, n, "quad", sel=list(range(n - 9, n))))
+    return out
+
+
+def boundary_size_of(case):
+    """size key for the evidence histogram"""
+    t = case.split()
+    return "cells:%s requested-workers:%s strategy:%s" % (t[4], t[2], t[1])
+
+
+def describe_boundary(case):
+    t = case.split()
+    keys = ["cells:" + t[4], "requested-workers:" + t[2]]
+    if t[0] in ("trace", "strace") and " | R " in case:
+        keys.append("workers-used:" + case.split(" | R ")[1].split()[0])
+    return keys
 
 
 def gen_fjob_cases(rng, count):
@@ -375,10 +483,15 @@ def oracle_dist(case, out):
         for l in range(len(le) - 1):
             for p in range(le[l], le[l + 1]):
                 layer_of[ei[p]] = l
-        for i, a in enumerate(sel):
-            for b in sel[i + 1:]:
-                if adjacent(cells, a, b) and abs(layer_of[a] - layer_of[b]) > 1:
-                    return "vertex-adjacent cells %d and %d lie in layers %d and %d" % (a, b, layer_of[a], layer_of[b])
+        at_vertex = {}
+        for a in sel:
+            for v in cells[a]:
+                at_vertex.setdefault(v, []).append(a)
+        for v, lst in at_vertex.items():
+            lo = min(lst, key=lambda x: layer_of[x])
+            hi = max(lst, key=lambda x: layer_of[x])
+            if layer_of[hi] - layer_of[lo] > 1:
+                return "vertex-adjacent cells %d and %d lie in layers %d and %d" % (lo, hi, layer_of[lo], layer_of[hi])
         if rs == 3:
             for l in range(len(le) - 1):
                 seg = ei[le[l]:le[l + 1]]
@@ -394,12 +507,17 @@ def oracle_dist(case, out):
         e = check_offsets(ce, len(ei), "colour")
         if e:
             return e
+        colour_of = {}
         for k in range(len(ce) - 1):
-            seg = ei[ce[k]:ce[k + 1]]
-            for i, a in enumerate(seg):
-                for b in seg[i + 1:]:
-                    if adjacent(cells, a, b):
-                        return "vertex-adjacent cells %d and %d share colour %d" % (a, b, k)
+            for a in ei[ce[k]:ce[k + 1]]:
+                colour_of[a] = k
+        seen_cv = {}
+        for a in sel:
+            for v in set(cells[a]):
+                key = (colour_of[a], v)
+                if key in seen_cv:
+                    return "vertex-adjacent cells %d and %d share colour %d" % (seen_cv[key], a, colour_of[a])
+                seen_cv[key] = a
         if nw > max(ce[k + 1] - ce[k] for k in range(len(ce) - 1)):
             return "more workers than cells in the largest colour"
     return None
@@ -561,18 +679,11 @@ def oracle_trace(case, out):
             continue
         if done != sorted(sel):
             return "repetition %d: assembled cells %s, selected %s (every selected cell exactly once)" % (r, done, sorted(sel))
-        # combine() must run under `_thread_mutex` on worker threads (probe 14; lock events 20/21 with hook H2b)
+        # combine() must run under `_thread_mutex` on worker threads: observed by the try_lock probe (event kind 14)
         if nw >= 1:
-            held = None
             for (k, t, a) in evs:
                 if k == 14 and a == 0:
                     return "repetition %d: thread %d runs the body of combine() without holding the assembler's mutex" % (r, t)
-                if k == 20:
-                    if held is not None:
-                        return "repetition %d: threads %d and %d hold the combine mutex at the same time" % (r, held, t)
-                    held = t
-                elif k == 21:
-                    held = None
         key = (ns, ncb)
         if seen_results.setdefault(key, (vec, integral, ncomb)) != (vec, integral, ncomb):
             return "repetition %d: the same job gives a different result than at an earlier position of the session" % r
@@ -645,8 +756,6 @@ def describe_trace(case):
                     keys.append("okay=false-cascaded-through-a-fence-wait")
             if any(k == 14 and a == 1 for r in runs for (k, t, a) in r[5]):
                 keys.append("combine-under-mutex-observed")
-            if any(k == 20 for r in runs for (k, t, a) in r[5]):
-                keys.append("hook-H2b-lock-events")
             if any(blocked_waits(r[5]) for r in runs):
                 keys.append("fence-wait-blocked")
         return keys
@@ -783,6 +892,21 @@ def main(argv):
                     describe=describe_trace, signature=signature, env=env),
     ]
     if not args.replay:
+        b_dist, b_runs = gen_boundary_cases(rng, thorough)
+        streams.append(vlib.Stream("boundary-sizes-dist", b_dist, [binary], vlib.driver_cmd(PROP), oracle=oracle_dist,
+                                   nontrivial=nontrivial_dist, describe=describe_boundary, signature=signature,
+                                   canon=canon, env=env))
+        if thorough:
+            streams.append(vlib.Stream("boundary-sizes-big", gen_boundary_big(rng), [binary], None, oracle=oracle_dist,
+                                       nontrivial=nontrivial_dist, describe=describe_boundary, signature=signature,
+                                       canon=canon, env=env))
+        try:
+            b_traces = record_runs(binary, b_runs, env)
+        except Exception as e:
+            b_traces = []
+            pre_violation = (pre_violation or "") + "\nboundary runs failed: %s" % e
+        streams.append(vlib.Stream("boundary-sizes-trace", b_traces, [binary], vlib.driver_cmd(PROP), oracle=oracle_trace,
+                                   nontrivial=nontrivial_trace, describe=describe_boundary, signature=signature, env=env))
         fj = gen_fjob_cases(rng, 6000 if thorough else 800)
         streams.append(vlib.Stream("featjobs", fj, [binary], None, oracle=oracle_fjob,
                                    nontrivial=lambda cs: int(cs.split()[2]) >= 2, describe=describe_fjob,
@@ -828,7 +952,8 @@ def main(argv):
         "once the fence is open (no lost wake-up of std::condition_variable); under it every real run is a maximal run of "
         "the model, which is finite and ends in the final state (variant-function theorems)",
         "the mutex probe (try_lock from the owning thread must fail) relies on glibc's non-recursive default mutex; it "
-        "is compiled out of the ThreadSanitizer build; with hooks/H2b_combine_lock.diff applied the lock events are logged",
+        "is compiled out of the ThreadSanitizer build; it is the only observation of the combine lock (a scope-object hook "
+        "would also log 'acquired' for a dead temporary lock)",
         "error path: a throwing task is modelled at the points where task code runs (constructor, prepare/assemble/"
         "finish between scatters, scatter, combine); results of a failing job are unspecified, only termination, "
         "exclusion and recovery of the following jobs are judged",
@@ -840,5 +965,5 @@ def main(argv):
                        "no data race (C++ memory model)": "RUNTIME clause, not proved: observed by ThreadSanitizer in the "
                        "thorough tier (streams tsan, tsan-featjobs: instrumented and real FEAT jobs, sessions, injected "
                        "task failures); the Lean theorems assume sequentially consistent atomic steps",
-                       "combine() under _thread_mutex": "proved on the refined machines (xstep) and observed per run: lock "
-                       "events of hook H2b when present, otherwise the instrumented job's mutex probe"}})
+                       "combine() under _thread_mutex": "proved on the refined machines (xstep) and observed per run by the "
+                       "instrumented job's try_lock probe inside combine()"}})
